@@ -19,6 +19,7 @@ TRIAGE={
  ("src/checker/on_demand.rs","if pending.len() > 1 && thread_count > 1 {"):"equivalent: with exactly one pending job `split_and_push` computes a piece size of 0 and publishes nothing",
  ("src/checker/explorer.rs","if !self.properties.is_empty() {"):"REAL GAP, closed: the rows of /.states lost their `properties`; the harness validated them only when present. Now a row of a model with properties must carry them (the mutant is killed: `row-without-properties`)",
  ("src/actor/spawn.rs","if e.kind() != std::io::ErrorKind::WouldBlock {"):"equivalent: only decides whether a log line is written",
+ ("src/checker/explorer.rs","let snapshot = Arc::new(RwLock::new(Snapshot(true, None)));"):"outside every property: only whether the FIRST visited path is sampled at once as `recent_path` of /.status or after the first 4 s timer tick (the UI's progress sample; documented limit of C19 in DESIGN §5)",
  ("src/checker/explorer.rs","fingerprints.push_back(fingerprint);"):"equivalent: the deque is EMPTY at that point (branch `fingerprints.is_empty()`), front = back",
 }
 out=["# Mutation runs (tools/mutate.py)","",
